@@ -14,6 +14,7 @@ import (
 	ecdsa_bn254 "github.com/consensys/gnark-crypto/ecc/bn254/ecdsa"
 	ecdsa_bw6633 "github.com/consensys/gnark-crypto/ecc/bw6-633/ecdsa"
 	ecdsa_bw6761 "github.com/consensys/gnark-crypto/ecc/bw6-761/ecdsa"
+	ecdsa_grumpkin "github.com/consensys/gnark-crypto/ecc/grumpkin/ecdsa"
 	ecdsa_secp256k1 "github.com/consensys/gnark-crypto/ecc/secp256k1/ecdsa"
 	ecdsa_starkcurve "github.com/consensys/gnark-crypto/ecc/stark-curve/ecdsa"
 	"github.com/consensys/gnark-crypto/signature"
@@ -36,6 +37,8 @@ func New(ss ecc.ID, r io.Reader) (signature.Signer, error) {
 		return ecdsa_bls24317.GenerateKey(r)
 	case ecc.BW6_633:
 		return ecdsa_bw6633.GenerateKey(r)
+	case ecc.GRUMPKIN:
+		return ecdsa_grumpkin.GenerateKey(r)
 	case ecc.SECP256K1:
 		return ecdsa_secp256k1.GenerateKey(r)
 	case ecc.STARK_CURVE:
